@@ -1,14 +1,15 @@
 SPECIFICATION Spec
 CONSTANTS
-  N = 4
+  N = 3
   MaxMut = 2
   MaxPark = 2
+  MaxSend = 1
   Ons = {"enter", "leave", "both"}
-  Backs = {FALSE, TRUE}
+  Backs = {FALSE}
   Recs = {TRUE, FALSE}
   Selfs = {TRUE, FALSE}
-  Shapes = {1, 2, 3, 4}
-  WRemovable = TRUE
+  Shapes = {1, 3}
+  WRemovable = FALSE
   Logging = FALSE
 INVARIANT YieldedAlive
 INVARIANT YieldedInTree
@@ -18,4 +19,4 @@ INVARIANT ReplacedChildrenNext
 INVARIANT SendTrueHonoured
 INVARIANT SendFalseHonoured
 INVARIANT Bounded
-PROPERTY Terminates
+
